@@ -13,6 +13,7 @@ import Qentem.Proofs.StrToNumPrefix
 import Qentem.Proofs.StrToNumFrac
 import Qentem.Proofs.StrToNumNegAll
 import Qentem.Proofs.StrToNumCloseAll
+import Qentem.Proofs.StrToNumTail
 /-! C09 — text to number: integers exact, reals within one ulp, out-of-range rejected. -/
 namespace Qentem.Props.C09
 open Qentem.StrToNum Qentem.Round Qentem.Generated.StrToNum
@@ -604,8 +605,8 @@ smallest subnormal; otherwise it is a `Real` with the text's sign whose magnitud
 **one ulp** of `nearestMag` of the exact value.
 
 Class: first digit non-zero, the mantissa including its dot fits the 19-unit window (≤ 18 digits),
-the fraction is not the single digit `0` (`1.0` takes the "just zero at the end" branch and is left to
-the oracle), exponent of 1..8 digits. Without an exponent every such numeral is covered; with one,
+the fraction is not the single digit `0` (`1.0` takes the "just zero at the end" branch: `Props/C09More.lean`),
+exponent of any number of digits (nine or more significant ones are out of range: NotANumber). Without an exponent every such numeral is covered; with one,
 every mantissa is covered too (round 5: `powerOfNegativeTen_close_all` — analytic bound above a width
 threshold, a 776-pair kernel table below it). -/
 theorem real_within_one_ulp_frac_end (c : List Nat) (o e : Nat) (sign : List Nat) (d1 : Nat) (xs ys : List Nat)
@@ -677,7 +678,6 @@ theorem real_within_one_ulp_frac_exp (c : List Nat) (o e : Nat) (sign : List Nat
     (he : e < 2 ^ 32) (hs : sign = [] ∨ sign = [43] ∨ sign = [45]) (h1 : isNonZeroDigit d1 = true)
     (hxs : AllDigits xs) (hys : AllDigits ys) (hy0 : ys ≠ []) (hy48 : ys ≠ [48]) (hlen : xs.length + ys.length ≤ 17)
     (hm : m = 101 ∨ m = 69) (hes : es = [] ∨ es = [43] ∨ es = [45]) (hks : AllDigits ks) (hk0 : ks ≠ [])
-    (hk8 : ks.length ≤ 8)
     (hu : unitsAt c e o (sign ++ (d1 :: xs ++ [46] ++ ys) ++ [m] ++ (es ++ ks)))
     (hend : endsAt c e (o + sign.length + 1 + xs.length + 1 + ys.length + 1 + es.length + ks.length) isDigit) :
     ClassOutcome (decide (sign = [45])) (decVal (d1 :: xs ++ ys))
@@ -709,13 +709,6 @@ theorem real_within_one_ulp_frac_exp (c : List Nat) (o e : Nat) (sign : List Nat
   have hQlt := rd_lt hQm
   rw [strToNum_after_sign c o e sign d1 hs hu1 hf]
   rw [afterSign_frac c e _ (o + sign.length) d1 xs ys he h1 hxs hys hy0 hy48 hlen hu'.2 (Or.inr ⟨m, hQm, hmd, hm46⟩)]
-  rw [finishReal_exp c e _ _ _ _ _ false true _ m es ks hQm hm (by omega) he hes hks hk0 hk8 hexpu hend
-    (xs.length + 1 + ys.length) ys.length
-    (by simp only [b2n, Bool.not_false, Bool.and_self, if_true]
-        rw [sub32_sub32 _ _ 1 (by omega) (by omega)]; omega)
-    (by simp only [Bool.false_eq_true, if_false, if_true]
-        rw [sub32_sub32 _ _ 1 (by omega) (by omega)]; omega)
-    (by omega)]
   have hall : AllDigits (d1 :: (xs ++ ys)) := by
     intro y hy
     simp only [List.mem_cons, List.mem_append] at hy
@@ -731,9 +724,29 @@ theorem real_within_one_ulp_frac_exp (c : List Nat) (o e : Nat) (sign : List Nat
   have hvlo : 10 ^ (xs.length + 1 + ys.length - 1) ≤ decVal (d1 :: (xs ++ ys)) := by
     have := decVal_ge d1 (xs ++ ys) h1
     rw [show xs.length + 1 + ys.length - 1 = (xs ++ ys).length by simp]; exact this
-  have hv64 : decVal (d1 :: (xs ++ ys)) < 2 ^ 64 :=
-    Nat.lt_of_lt_of_le hvhi (Nat.le_trans (Nat.pow_le_pow_right (by decide) (show xs.length + 1 + ys.length ≤ 19 by omega)) (by decide))
-  have hk : decVal ks < 10 ^ 8 := Nat.lt_of_lt_of_le (decVal_lt_pow ks hks) (Nat.pow_le_pow_right (by decide) hk8)
+  have hv19 : decVal (d1 :: (xs ++ ys)) < 10 ^ 19 :=
+    Nat.lt_of_lt_of_le hvhi (Nat.pow_le_pow_right (by decide) (show xs.length + 1 + ys.length ≤ 19 by omega))
+  have hv64 : decVal (d1 :: (xs ++ ys)) < 2 ^ 64 := Nat.lt_of_lt_of_le hv19 (by decide)
+  rcases Nat.lt_or_ge (decVal ks) 100000000 with hk | hbig
+  swap
+  · rw [finishReal_exp_sat c e _ _ _ _ _ false true _ _ m es ks (fun k h1 h2 => by omega) (Nat.le_refl _) hQm hm
+      hes hks hk0 hexpu hend (by simpa using (Nat.ne_of_gt hv0)) hbig]
+    refine ⟨_, rfl, rfl, Or.inl ⟨rfl, ?_⟩⟩
+    have hX : 400 ≤ (netExp false (decVal ks) (decide (es = [45])) ys.length).1 := by
+      unfold netExp
+      split
+      · simp; omega
+      · split <;> simp <;> omega
+    have := out_of_range_big (decVal (d1 :: (xs ++ ys))) _ (netExp false (decVal ks) (decide (es = [45])) ys.length).2 hv0 hv19 hX
+    simpa using this
+  rw [finishReal_exp_skip c e _ _ _ _ _ false true _ _ m es ks (fun k h1 h2 => by omega) (Nat.le_refl _) hQm hm he
+    hes hks hk0 hexpu hend (Or.inl rfl) hk
+    (xs.length + 1 + ys.length) ys.length
+    (by simp only [b2n, Bool.not_false, Bool.and_self, if_true]
+        rw [sub32_sub32 _ _ 1 (by omega) (by omega)]; omega)
+    (by simp only [Bool.false_eq_true, if_false, if_true]
+        rw [sub32_sub32 _ _ 1 (by omega) (by omega)]; omega)
+    (by omega)]
   have hX : (netExp false (decVal ks) (decide (es = [45])) ys.length).1 < 2 ^ 31 := by
     unfold netExp
     split
